@@ -11,7 +11,8 @@
 //!   so that a deterministic scheduler can treat the thread as blocked instead of letting it
 //!   block in the kernel while every other thread is parked.
 
-use std::sync::{OnceLock, TryLockError};
+use std::any::TypeId;
+use std::sync::{Mutex, OnceLock, TryLockError};
 
 /// The function pointers a harness installs.
 #[derive(Clone, Copy, Debug)]
@@ -48,4 +49,41 @@ pub(crate) fn block_until(name: &'static str, ready: &dyn Fn() -> bool) {
 /// else. The guard (if any) is dropped immediately - this is only ever used as a `ready` probe.
 pub(crate) fn lock_is_free<G>(attempt: Result<G, TryLockError<G>>) -> bool {
     !matches!(attempt, Err(TryLockError::WouldBlock))
+}
+
+/// Families whose "first" instance is being created right now (the `OnceLock` of their registry
+/// entry is running its initializer). `OnceLock` does not expose that state, and a thread that
+/// called `get_or_init()` on such a cell would block in the kernel.
+static INITIALIZING: Mutex<Vec<TypeId>> = Mutex::new(Vec::new());
+
+pub(crate) fn is_initializing(family_key: TypeId) -> bool {
+    INITIALIZING
+        .lock()
+        .unwrap_or_else(std::sync::PoisonError::into_inner)
+        .contains(&family_key)
+}
+
+/// Marks a family as being initialized for as long as the guard lives.
+pub(crate) struct InitializingGuard {
+    family_key: TypeId,
+}
+
+impl InitializingGuard {
+    pub(crate) fn new(family_key: TypeId) -> Self {
+        INITIALIZING
+            .lock()
+            .unwrap_or_else(std::sync::PoisonError::into_inner)
+            .push(family_key);
+
+        Self { family_key }
+    }
+}
+
+impl Drop for InitializingGuard {
+    fn drop(&mut self) {
+        INITIALIZING
+            .lock()
+            .unwrap_or_else(std::sync::PoisonError::into_inner)
+            .retain(|key| *key != self.family_key);
+    }
 }
